@@ -59,6 +59,8 @@ pub struct Live {
     pub prevote_term: u64,
     /// (message term, acked index, term of the entry at that index when the ack was generated)
     pub ack_terms: Vec<(u64, u64, u64)>,
+    /// apply-lag mode: a snapshot was installed and advance_apply_to(snapshot index) is still due
+    pub snap_ack_pending: bool,
 }
 
 #[derive(Clone, Default)]
@@ -417,6 +419,7 @@ impl World {
             prevote_grants: vec![],
             prevote_term: 0,
             ack_terms: vec![],
+            snap_ack_pending: false,
         };
         // C06(c): restored state is not behind anything this node told others
         let g = &self.nodes[i].g;
@@ -655,7 +658,7 @@ impl World {
                     }
                 }
             }
-            if !l.to_apply.is_empty() {
+            if !l.to_apply.is_empty() || l.snap_ack_pending {
                 out.push(Action::ApplyNext(id));
             }
             if s.crashable.contains(&id) && u.crashes < c.crashes {
@@ -1141,9 +1144,15 @@ impl World {
             }
             Action::ApplyNext(id) => {
                 let i = id as usize - 1;
-                let e = self.nodes[i].live.as_mut().unwrap().to_apply.pop_front().unwrap();
-                if !self.apply_entries(i, vec![e], ctx) {
-                    return false;
+                let pending_snap = {
+                    let l = self.nodes[i].live.as_mut().unwrap();
+                    std::mem::replace(&mut l.snap_ack_pending, false)
+                };
+                if !pending_snap {
+                    let e = self.nodes[i].live.as_mut().unwrap().to_apply.pop_front().unwrap();
+                    if !self.apply_entries(i, vec![e], ctx) {
+                        return false;
+                    }
                 }
                 let applied = self.live(i).unwrap().rn.store().app.applied;
                 self.call(i, CallKind::ApplyTo, ctx, |rn| rn.advance_apply_to(applied))
@@ -1441,7 +1450,7 @@ impl World {
         if !self.hand_out(i, ce, true, ctx) {
             return false;
         }
-        if !self.cfg(i).apply_lag || had_snapshot {
+        if !self.cfg(i).apply_lag {
             let applied = self.live(i).unwrap().rn.store().app.applied;
             if self
                 .call(i, CallKind::ApplyTo, ctx, |rn| rn.advance_apply_to(applied))
@@ -1449,6 +1458,8 @@ impl World {
             {
                 return false;
             }
+        } else if had_snapshot {
+            self.nodes[i].live.as_mut().unwrap().snap_ack_pending = true;
         }
         true
     }
@@ -1548,7 +1559,7 @@ impl World {
         {
             return false;
         }
-        if !self.cfg(i).apply_lag || had_snapshot {
+        if !self.cfg(i).apply_lag {
             let applied = self.live(i).unwrap().rn.store().app.applied;
             if self
                 .call(i, CallKind::ApplyTo, ctx, |rn| rn.advance_apply_to(applied))
@@ -1556,6 +1567,8 @@ impl World {
             {
                 return false;
             }
+        } else if had_snapshot {
+            self.nodes[i].live.as_mut().unwrap().snap_ack_pending = true;
         }
         true
     }
@@ -1613,7 +1626,7 @@ impl World {
                     again = true;
                 }
             }
-            while self.live(i).map(|l| !l.to_apply.is_empty()).unwrap_or(false) {
+            while self.live(i).map(|l| !l.to_apply.is_empty() || l.snap_ack_pending).unwrap_or(false) {
                 if !self.apply_inner(&Action::ApplyNext(i as u8 + 1), ctx) {
                     return None;
                 }
@@ -1959,6 +1972,7 @@ fn write_live(w: &mut W, l: &Live) {
     }
     w.ids(&l.prevote_grants);
     w.u64(l.prevote_term);
+    w.b(l.snap_ack_pending);
     w.us(l.ack_terms.len());
     for (a, b, c) in &l.ack_terms {
         w.u64(*a);
